@@ -16,14 +16,25 @@ META = {
     "text": ("Lean theorems Hv.C13.parse_serialize (exact-bytes round trip on encoder-chosen headers) and parse_serialize_structural "
              "(any header widths), apply_wf (a reported success leaves a body the parser accepts, when op values are validated), "
              "untouched_bytes (every sub-tree off the op's path is identical afterwards), ops_atomic / ops_atomic_fold / cond_unmet, "
-             "inc_preserves_code, cond_numeric and nan_equal_nothing — all for arbitrary inputs; closed witnesses witness_unvalidated "
+             "inc_preserves_code / inc_keeps_format (op level), cond_numeric and nan_equal_nothing, apply_refines_spec_partial (parsing the returned body "
+             "gives Spec.refOps — the eight documented ops over the decoded tree — of the parsed input; REMOVE_VAL with scalar values), "
+             "untouched_target (siblings of the target, incl. one-segment paths), atomic_fold — all for arbitrary inputs; closed witnesses witness_unvalidated "
              "(SET x <- 0xc1 succeeds, body no longer parses) and witness_nan_equal (EQUAL NaN is met) refute the property for the "
              "unrepaired fact values; classify_sound ties the decision to the extracted facts."),
     "note": ("Trusted: Lean kernel (propext, Classical.choice, Quot.sound); extract/c13.go; harness/c13.go; checks/C13.py. The model "
              "mirrors vmihailenco/msgpack v5.4.1 (Skip, DecodeMapLen/ArrayLen/String, generic Unmarshal with only the time extension "
-             "registered) — validated by the correspondence run, not proved. NaN payload propagation follows amd64 SSE2. apply_wf "
-             "assumes no container is pushed past 2^32-1 children and paths shorter than 2^32 bytes. Error-class agreement between "
-             "model and code is tested, not proved."),
+             "registered) — validated by the correspondence run, not proved. PLATFORM ASSUMPTION: the payload bits of a NaN produced by INC (x + NaN, Inf + -Inf, float32(NaN)) are not defined by the Go "
+             "spec; the model states the amd64 SSE2 rule (first NaN operand, quieted; default NaN fff8…), but the correspondence does not "
+             "assert it: every op line whose INC may meet NaN / ±Inf is an `apn` line, for which both sides print NaN leaves as the "
+             "canonical quiet NaN (compared as \"is NaN\"). apply_wf "
+             "assumes no container is pushed past 2^32-1 children and paths shorter than 2^32 bytes. ERROR CLASSES: apply_error_class proves that a documented "
+             "failure of class c (Spec.refOps) is a failure of class c of the model (and op_agrees / applyOps_agrees the converse), "
+             "for all op kinds, when (a) MERGE values are ones the code accepts and (b) no op runs after a same-patch container "
+             "splice (NoSplice; finding C13-spliced-value-opaque otherwise). Ambiguous in the docs, tested only: a rejected MERGE "
+             "value that is malformed AND not a map (code: TYPE_MISMATCH by first byte, decode-first reading: ENCODING_NOT_SUPPORTED; "
+             "closed witness merge_rejected_class), msgpack-vs-nonstr inside a malformed MERGE map (same status 7), and an op with "
+             "both a malformed value and a bad path (check order undocumented; the oracle abstains). That the Go code fails with the "
+             "model's class is the correspondence run, not a proof."),
     "design_ref": "§8 C13",
 }
 
@@ -31,6 +42,14 @@ FINDINGS = {
     "C13-unvalidated-op-value": "op values are spliced in unvalidated: SET x <- 0xc1 (or a value with a trailing byte / non-string map key) "
                                 "reports success and leaves a body that Parse rejects",
     "C13-nan-compares-equal": "cmpFloat64 returns 0 when an operand is NaN: the condition `f EQUAL NaN` (and `f EQUAL 1.0` on a NaN field) is met",
+    "C13-removeval-skips-containers": "applyRemoveVal skips every array element that is a map / array parsed from the stored body: on {\"t\":[[1]]}, "
+                                      "REMOVE_VAL t <- [1] reports success and removes nothing (the docs: `the first array element whose "
+                                      "msgpack-encoded bytes equal Value`); the same value IS removed when it was appended earlier in the same patch",
+    "C13-status-mapping": "classifyPatchError maps a msgpackpatch error class to another PatchFields status than documented "
+                          "(CONDITION_NOT_MET / TYPE_MISMATCH / PATH_INVALID for path and invalid-op / ENCODING_NOT_SUPPORTED)",
+    "C13-spliced-value-opaque": "a map / array value stored by SET / APPEND / PREPEND / MERGE is an opaque leaf for the rest of the same patch: "
+                                "`SET x <- {\"a\":1}; SET x.a <- 2` is rejected with TYPE_MISMATCH, although the same two ops sent as two "
+                                "patches succeed (ops are documented to apply in order to the document)",
     "C13-prealloc-untrusted-count": "parseMap / parseArray / extractTopLevelFields and the msgpack library's generic decoder size an allocation by a "
                                     "declared 32-bit element count before reading a single element: the 5-byte MERGE value df ff ff ff ff makes the "
                                     "process ask for 160 GB and die with `fatal error: runtime: out of memory` (not recoverable)",
@@ -160,15 +179,40 @@ def ref_path(p):
 
 
 def _find(fs, key):
-    idx = [i for i, (k, _) in enumerate(fs) if k == key]
-    if len(idx) > 1:
-        raise Skip("duplicate key on the path")
-    return idx[0] if idx else None
+    """the field named `key`: with duplicate keys the FIRST one (the Spec's answer — `Spec.keyIndex`;
+    the docs are silent, the SDK never writes duplicates, and a patch must not depend on a later twin)"""
+    for i, (k, _) in enumerate(fs):
+        if k == key:
+            return i
+    return None
+
+
+def _canon_nan(t):
+    """NaN float leaves → canonical quiet NaN (for `apn` lines: payload bits are platform-defined)"""
+    if t[0] == "L":
+        return ("L", (b"\xca\x7f\xc0\x00\x00" if len(t[1]) == 5 else b"\xcb\x7f\xf8" + b"\x00" * 6)) if is_nan_leaf(t[1]) else t
+    if t[0] == "M":
+        return ("M", [(k, _canon_nan(v)) for k, v in t[1]])
+    return ("A", [_canon_nan(v) for v in t[1]])
+
+
+class Opaque(Exception):
+    """an op addresses INTO a map / array value that an earlier op of the same patch put there"""
+
+
+SPLICED = set()     # id()s of container values spliced in by the ops of the line being judged
+TOUCHED = [False]   # did the op being evaluated go through / target one of them?
+
+
+def _mark(t):
+    if t[0] in ("M", "A"):
+        SPLICED.add(id(t))
+    return t
 
 
 def _value(v):
     try:
-        return dec_all(v)
+        return _mark(dec_all(v))
     except Malformed:
         raise Skip("op value is not one well-formed value")
 
@@ -190,6 +234,29 @@ def _num(raw):
     return None, None, None
 
 
+def _hdr(n, fix, c16, c32, lim):
+    if n < lim:
+        return bytes([fix | n])
+    if n < 65536:
+        return bytes([c16]) + n.to_bytes(2, "big")
+    return bytes([c32]) + n.to_bytes(4, "big")
+
+
+def _enc(t):
+    """encoding of a generic tree with the smallest container / key headers; leaves verbatim"""
+    if t[0] == "L":
+        return t[1]
+    if t[0] == "A":
+        return _hdr(len(t[1]), 0x90, 0xdc, 0xdd, 16) + b"".join(_enc(x) for x in t[1])
+    out = _hdr(len(t[1]), 0x80, 0xde, 0xdf, 16)
+    for k, v in t[1]:
+        n = len(k)
+        kh = bytes([0xa0 | n]) if n < 32 else (b"\xd9" + bytes([n]) if n < 256 else
+                                               (b"\xda" + n.to_bytes(2, "big") if n < 65536 else b"\xdb" + n.to_bytes(4, "big")))
+        out += kh + k + _enc(v)
+    return out
+
+
 def _chain(keys, inner):
     for k in reversed(keys):
         inner = ("M", [(k, inner)])
@@ -197,12 +264,39 @@ def _chain(keys, inner):
 
 
 def ref_op(t, kind, path, val):
+    """documented semantics of one op; raises Opaque when the op SUCCEEDS only because the reference looks
+    into a container value an earlier op of the same patch stored (the code keeps it as an opaque leaf and
+    answers TYPE_MISMATCH); abstains when such an op fails for another reason than a type mismatch"""
+    TOUCHED[0] = False
+    try:
+        res = _ref_op(t, kind, path, val)
+    except RefErr as e:
+        if TOUCHED[0] and str(e) != "type":
+            raise Skip("fails inside a spliced value: which error comes first is not documented")
+        raise
+    if TOUCHED[0]:
+        raise Opaque()
+    return res
+
+
+def _ref_op(t, kind, path, val):
     """documented semantics of one op on the generic tree; returns the new tree"""
     segs = ref_path(path)
+    if kind not in ("set", "del", "inc", "app", "pre", "rmat", "rmval", "merge"):
+        raise RefErr("op")
     if kind in ("set", "inc", "app", "pre", "rmval", "merge") and len(val) == 0:
         raise RefErr("op")
+    # an op whose value is malformed AND whose path / target is wrong: which error is reported is not
+    # documented (the code validates the value first) — the reference abstains
+    if kind in ("set", "app", "pre", "inc"):
+        try:
+            dec_all(val)
+        except Malformed:
+            raise Skip("malformed op value")
     # walk to the parent of the final segment, copying the spine
     def go(node, k):
+        if id(node) in SPLICED:
+            TOUCHED[0] = True
         seg = segs[k]
         last = k == len(segs) - 1
         if seg[0] == "f":
@@ -253,11 +347,14 @@ def ref_op(t, kind, path, val):
         if dc is None:
             raise RefErr("type")
     if kind == "merge":
-        mv = _value(val)
-        if mv[0] != "M":
+        if not (0x80 <= val[0] <= 0x8f or val[0] in (0xde, 0xdf)):
             raise RefErr("type")
-        if len({k for k, _ in mv[1]}) != len(mv[1]):
-            raise Skip("duplicate keys in the MERGE value")
+        try:
+            mv = dec_all(val)
+        except Malformed:
+            raise Skip("MERGE value is not one well-formed map")
+        for _, fv in mv[1]:
+            _mark(fv)
     root, hit = go(t, 0)
 
     def handler(node, hit):
@@ -340,11 +437,19 @@ def ref_op(t, kind, path, val):
         elif kind == "rmval":
             if hit[0] == "target":
                 tgt = get(hit[1])
+                if id(tgt) in SPLICED:
+                    TOUCHED[0] = True
                 if tgt[0] != "A":
                     raise RefErr("type")
+                # "the first array element whose msgpack-encoded bytes equal Value": scalars by their exact
+                # bytes, containers by their encoding with the smallest headers (what a re-encode gives)
+                try:
+                    want = _enc(dec_all(val))
+                except Malformed:
+                    want = bytes(val)
                 xs = list(tgt[1])
                 for i, x in enumerate(xs):
-                    if x[0] == "L" and x[1] == bytes(val):
+                    if _enc(x) == want:
                         del xs[i]
                         break
                 put(hit[1], ("A", xs))
@@ -360,6 +465,8 @@ def ref_op(t, kind, path, val):
                 return ("M", fs)
             if hit[0] == "target":
                 tgt = get(hit[1])
+                if id(tgt) in SPLICED:
+                    TOUCHED[0] = True
                 if tgt[0] != "M":
                     raise RefErr("type")
                 put(hit[1], merged(tgt[1]))
@@ -532,6 +639,15 @@ def _first_diff(x, y, path=""):
     return None
 
 
+def rmval_container(ops):
+    """does the op list contain a REMOVE_VAL whose value is a map / array encoding?"""
+    for k, _, v in ops:
+        b = unhex(v)
+        if k == "rmval" and b and (0x80 <= b[0] <= 0x9f or b[0] in (0xdc, 0xdd, 0xde, 0xdf)):
+            return True
+    return False
+
+
 def value_malformed(ops):
     """does the op list splice a value that is not exactly one well-formed, string-keyed value?"""
     for k, _, v in ops:
@@ -549,6 +665,9 @@ def oracle_line(op, rep):
     """Spec oracle on ONE implementation reply.  Returns (finding id | None, text) or None."""
     if rep in ("panic", "input-mutated") or rep.startswith("err-with-output"):
         return (None, "`%s` → %s" % (op[:200], rep))
+    canon = op.startswith("apn ")
+    if canon:
+        op = "ap " + op[4:]
     if op.startswith("ap "):
         body, cond, ops = parse_ap(op)
         if rep.startswith("out "):
@@ -568,54 +687,186 @@ def oracle_line(op, rep):
                 if met is False:
                     return (None, "condition %s is NOT met by the document (exact integer / IEEE comparison), but the patch was applied"
                             % ":".join(cond))
+            # success ⇒ the output is one well-formed, string-keyed msgpack value for the reference decoder too
+            # (decided before anything below can skip: a lenient real parser must not hide a malformed body)
+            try:
+                got = dec_all(out)
+            except Malformed as e:
+                fid = "C13-unvalidated-op-value" if value_malformed(ops) else None
+                return (fid, "reported success with wf=1, but the reference decoder rejects the output body %s (%s)" % (f[1], e))
             # success ⇒ the output decodes to what the documented semantics give
+            SPLICED.clear()
             try:
                 t = dec_all(body)
                 for k, p, v in ops:
                     t = ref_op(t, k, unhex(p), unhex(v))
-                got = dec_all(out)
-            except Skip:
+            except (Skip, Opaque):
                 return None
             except RefErr as e:
-                return (None, "reported success, but the documented semantics reject the op list (%s)" % e)
+                fid = "C13-removeval-skips-containers" if rmval_container(ops) else None
+                return (fid, "reported success, but the documented semantics reject the op list (%s)" % e)
             except Malformed:
                 return (None, "reported success on a body / with an output the reference decoder rejects")
+            if canon:
+                got, t = _canon_nan(got), _canon_nan(t)
             if got != t:
                 d = _first_diff(got, t)
                 if d and d[1][0] == "L" and d[2][0] == "L" and _num(d[1][1])[0] and _num(d[2][1])[0] \
-                        and d[1][1][0] != d[2][1][0] and any(k == "inc" for k, _, _ in ops):
+                        and d[1][1][0] != d[2][1][0] and any(k == "inc" for k, _, _ in ops) and not rmval_container(ops):
                     return (None, "INC does not keep the target's numeric format: at `%s` the output holds %s (code %02x), the documented "
                             "rule gives %s (code %02x)" % (d[0].lstrip("."), d[1][1].hex(), d[1][1][0], d[2][1].hex(), d[2][1][0]))
                 where = " (first difference at `%s`: got %s, expected %s)" % (
                     d[0].lstrip("."), d[1][1].hex() if d[1][0] in ("L", "K") else d[1], d[2][1].hex() if d[2][0] in ("L", "K") else d[2]) if d else ""
-                return (None, "output %s does not decode to the document the documented semantics give%s" % (f[1], where))
-        elif rep == "err cond" and cond is not None:
-            # failure with CONDITION_NOT_MET ⇒ the reference agrees that it is not met
-            try:
-                met = ref_cond(dec_all(body), cond)
-            except Malformed:
-                met = None
-            if met is True:
-                return (None, "condition %s IS met by the document (exact integer / IEEE comparison), but the patch was rejected as "
-                        "CONDITION_NOT_MET" % ":".join(cond))
+                fid = "C13-removeval-skips-containers" if rmval_container(ops) else None
+                return (fid, "output %s does not decode to the document the documented semantics give%s" % (f[1], where))
+        elif rep.startswith("err "):
+            return judge_error(body, cond, ops, GROUP.get(rep[4:]), "the patch was rejected with `%s`" % rep)
         return None
     if op.startswith("pf "):
-        f = op.split(" ")
-        m = re.match(r"st=(\d+) (\S+) wf=(\d) new=(\S+)$", rep)
-        if not m:
-            return (None, "PatchFields reply `%s`" % rep)
-        st, stored, wf, new = int(m.group(1)), m.group(2), m.group(3), m.group(4)
-        if st in (0, 1):
-            if not stored.startswith("b:c700") or stored[6:] != new:
-                return (None, "PatchFields success but stored %s / echoed %s" % (stored, new))
-            if wf != "1":
-                ops = [tuple(x.split(":")) for x in f[5:]]
-                fid = "C13-unvalidated-op-value" if value_malformed(ops) else None
-                return (fid, "PatchFields reported success, stored body does not parse")
-        else:
-            if stored != f[1] or new != "-":
-                return (None, "PatchFields status %d but the stored content changed: %s → %s" % (st, f[1], stored))
+        return judge_pf(op, rep)
+    return None
+
+
+# status groups of the documented mapping (hydraide.proto PatchResult + classifyPatchError)
+GROUP = {"cond": 3, "type": 5, "path": 6, "op": 6, "msgpack": 7, "nonstr": 7}
+STATUS_NAME = {0: "PATCHED", 1: "CREATED", 2: "KEY_NOT_FOUND", 3: "CONDITION_NOT_MET", 5: "TYPE_MISMATCH", 6: "PATH_INVALID",
+               7: "ENCODING_NOT_SUPPORTED", 8: "INTERNAL_ERROR"}
+
+
+def ref_outcome(body, cond, ops):
+    """documented outcome of a patch on a body: ("ok", tree) | ("err", status group) | None (no opinion).
+    Raises Opaque when an op addresses into a container spliced in earlier in the same patch."""
+    SPLICED.clear()
+    try:
+        t = dec_all(body)
+    except Malformed:
+        return ("err", 7)
+    if cond is not None:
+        met = ref_cond(t, cond)
+        if met is None:
+            return None
+        if met is False:
+            return ("err", 3)
+    try:
+        for k, p, v in ops:
+            t = ref_op(t, k, unhex(p), unhex(v))
+    except Skip:
         return None
+    except RefErr as e:
+        return ("err", {"type": 5, "path": 6, "op": 6}[str(e)])
+    return ("ok", t)
+
+
+def judge_error(body, cond, ops, got_status, what):
+    """the implementation failed with a status of group `got_status`: does the documentation agree?"""
+    if got_status is None:
+        return (None, "unknown error class: " + what)
+    try:
+        exp = ref_outcome(body, cond, ops)
+    except Opaque:
+        if got_status == 5:
+            return ("C13-spliced-value-opaque", "a later op addresses into a map / array value that an earlier op of the same patch "
+                    "stored, and %s (the same ops as two patches succeed)" % what)
+        return None
+    if exp is None:
+        return None
+    if exp[0] == "ok":
+        fid = "C13-removeval-skips-containers" if rmval_container(ops) else None
+        return (fid, "the documented semantics apply the op list, but " + what)
+    if exp[1] != got_status:
+        if exp[1] == 3:
+            return (None, "the condition is NOT met by the document (CONDITION_NOT_MET expected), but " + what)
+        if got_status == 3:
+            return (None, "condition %s IS met by the document (exact integer / IEEE comparison), but the patch was rejected as "
+                    "CONDITION_NOT_MET" % ":".join(cond or ()))
+        # a skipped container REMOVE_VAL changes what the following ops meet (another error, or an error elsewhere)
+        fid = "C13-removeval-skips-containers" if rmval_container(ops) else None
+        return (fid, "the documented outcome is %s, but %s" % (STATUS_NAME.get(exp[1], exp[1]), what))
+    return None
+
+
+def judge_pf(op, rep):
+    """PatchFields end-to-end: status, stored body, echoed body and meta against the documentation"""
+    f = op.split(" ")
+    m = re.match(r"st=(\d+) (\S+) wf=(\d) new=(\S+) exp=(-?\d+) mat=(\d) mby=(\S+) cat=(\d) cby=(\S+)$", rep)
+    if not m or len(f) < 6:
+        return (None, "PatchFields reply `%s`" % rep)
+    st, stored, wf, new = int(m.group(1)), m.group(2), m.group(3), m.group(4)
+    exp, mat, mby, cat, cby = int(m.group(5)), m.group(6), m.group(7), m.group(8), m.group(9)
+    before, exp0 = f[1], 0
+    if "@" in before:
+        before, e0 = before.split("@")
+        exp0 = int(e0)
+    create, seed, meta = f[2] == "1", unhex(f[3]), f[4]
+    cond = None if f[5] == "-" else tuple(f[5].split(":"))
+    ops = [tuple(x.split(":")) for x in f[6:]]
+    mt = {} if meta == "-" else dict((t.split("=") + [""])[:2] for t in meta.split(","))
+    # ---- what the documentation promises
+    if st in (0, 1):
+        if not stored.startswith("b:c700") or stored[6:] != new:
+            return (None, "PatchFields success but stored %s / echoed %s" % (stored, new))
+        if wf != "1":
+            fid = "C13-unvalidated-op-value" if value_malformed(ops) else None
+            return (fid, "PatchFields reported success, stored body does not parse")
+        # meta: stamped on success; Created* only on create; ClearExpiredAt over SetExpiredAt
+        want_exp = 0 if "clr" in mt else (int(mt["exp"]) if "exp" in mt else exp0)
+        want = (want_exp, "1" if "ua" in mt else "0", mt.get("ub") or "-",
+                "1" if (st == 1 and "ca" in mt) else "0", (mt.get("cb") or "-") if st == 1 else "-")
+        if (exp, mat, mby, cat, cby) != want:
+            return (None, "PatchFields meta after %s: got exp=%d mat=%s mby=%s cat=%s cby=%s, documented %s" %
+                    (STATUS_NAME[st], exp, mat, mby, cat, cby, want))
+    else:
+        if stored != before or new != "-" or exp != exp0 or (mat, mby, cat, cby) != ("0", "-", "0", "-"):
+            return (None, "PatchFields status %d but the treasure changed: %s → %s (exp %d → %d)" % (st, f[1], stored, exp0, exp))
+    # ---- expected status
+    if before == "absent" and not create:
+        want_st, body = 2, None
+    else:
+        sd = seed if seed else b"\x80"
+        seed_ok = True
+        try:
+            dec_all(sd)
+        except Malformed:
+            seed_ok = False
+        if create and not seed_ok:
+            want_st, body = 5, None
+        elif before == "absent":
+            if sd[0] not in range(0x80, 0x90) and sd[0] not in (0xde, 0xdf):
+                return None          # non-map seed: documented TYPE_MISMATCH, the code only fails once an op touches it
+            want_st, body = None, sd
+        elif before == "other":
+            want_st, body = 5, None
+        else:
+            raw = unhex(before[2:])
+            if len(raw) < 2 or raw[:2] != b"\xc7\x00":
+                want_st, body = 7, None
+            else:
+                want_st, body = None, raw[2:]
+    if body is not None:
+        try:
+            out = ref_outcome(body, cond, ops)
+        except Opaque:
+            return ("C13-spliced-value-opaque", "PatchFields: a later op addresses into a value stored earlier in the same patch") \
+                if st == 5 else None
+        if out is None:
+            return None
+        if out[0] == "err":
+            want_st = out[1]
+        else:
+            want_st = 1 if before == "absent" else 0
+            if st == want_st:
+                try:
+                    if dec_all(unhex(new)) != out[1]:
+                        fid = "C13-removeval-skips-containers" if rmval_container(ops) else None
+                        return (fid, "PatchFields stored %s, which is not the document the documented semantics give" % new)
+                except Malformed:
+                    return (None, "PatchFields stored a body the reference decoder rejects: %s" % new)
+    if st != want_st:
+        fid = "C13-removeval-skips-containers" if rmval_container(ops) and body is not None else None
+        if fid is None and body is not None and st not in (0, 1) and want_st not in (0, 1, None):
+            fid = "C13-status-mapping"      # an op / condition error reported under another status
+        return (fid, "PatchFields replied %s (%d), the documented status is %s (%d)" %
+                (STATUS_NAME.get(st, "?"), st, STATUS_NAME.get(want_st, "?"), want_st))
     return None
 
 
@@ -631,7 +882,7 @@ def spec_violated(rep):
 def probe(ctx, drv_args):
     """Each probe line in its own memory-limited (RLIMIT_AS) `hx run` child.  Returns (crashed lines, mismatching lines)."""
     hx = os.path.join(K.BIN, "hx")
-    crashed, wrong = [], []
+    crashed, wrong, other = [], [], []
     for line, gib in PROBES:
         def limit(g=gib):
             resource.setrlimit(resource.RLIMIT_AS, (g << 30, g << 30))
@@ -640,15 +891,19 @@ def probe(ctx, drv_args):
             p = subprocess.run([hx, "run", "C13"], input=line + "\n", stdout=subprocess.PIPE, stderr=subprocess.PIPE,
                                text=True, timeout=120, preexec_fn=limit)
         except subprocess.TimeoutExpired:
-            crashed.append((line, "timeout"))
+            # not the recorded symptom (a loaded machine, or a different defect): reported separately
+            other.append((line, "no reply within 120 s"))
             continue
         out = p.stdout.strip().split("\n")[0] if p.stdout.strip() else ""
         if p.returncode != 0 or out == "":
             tail = [l for l in p.stderr.split("\n") if l.startswith("fatal error") or l.startswith("runtime:")][:2]
-            crashed.append((line, "exit %d %s" % (p.returncode, " ".join(tail))))
+            if "out of memory" in p.stderr:
+                crashed.append((line, "exit %d %s" % (p.returncode, " ".join(tail))))
+            else:
+                other.append((line, "exit %d without an out-of-memory report: %s" % (p.returncode, p.stderr.strip()[-300:])))
         elif model and out != model[0].split("\t")[0]:
             wrong.append((line, out, model[0]))
-    return crashed, wrong
+    return crashed, wrong, other
 
 
 # ------------------------------------------------------------------ check
@@ -661,7 +916,9 @@ def run(ctx):
         magic = "%02x%02x" % (int(facts.get("magic0", "0") or 0), int(facts.get("magic1", "0") or 0)) \
             if facts.get("magic0", "unknown") != "unknown" and facts.get("magic1", "unknown") != "unknown" else "unknown"
         args = ["validatesValues=" + facts.get("validatesValues", "unknown"), "nanCompare=" + facts.get("nanCompare", "unknown"),
-                "magic=" + magic]
+                "magic=" + magic, "removeValCompare=" + facts.get("removeValCompare", "unknown"),
+                "smap=" + ",".join(facts.get(k, "x") for k in ("stCond", "stType", "stPath", "stOp", "stMsgpack", "stNonstr")),
+                "seedDefault=%02x" % int(facts.get("seedDefault", "0") if facts.get("seedDefault", "unknown") != "unknown" else 0)]
         c = K.correspondence(ctx, "C13", args, hx_env={"HYDRAIDE_LOG_LEVEL": "error"})
         corrs.append(("C13", args, c))
     else:
@@ -701,10 +958,11 @@ def run(ctx):
             rep = K.case_replay(c, [i])
             rep.update({"correspondence": "C13", "finding": fid})
             ctx.violation("finding %s seen by the Spec oracle on the implementation's replies" % fid, rep, tag=fid)
-    # model flags that the oracle does not see (machinery drift)
+    # a finding the model flags but the oracle never sees in this run (machinery drift); on a single line the
+    # oracle may abstain (the reference has no opinion there), so only a finding with no oracle hit at all counts
     for i, fl in enumerate(c.flags):
         for fid in fl:
-            if i not in mism and i not in oracle_hits.get(fid, []):
+            if i not in mism and not oracle_hits.get(fid):
                 rep = K.case_replay(c, [i])
                 rep.update({"correspondence": "C13", "finding": fid})
                 ctx.violation("model flags %s but the Spec oracle sees nothing wrong in the implementation's reply" % fid, rep,
@@ -715,11 +973,16 @@ def run(ctx):
         break
     # allocation probe
     pid_f = "C13-prealloc-untrusted-count"
-    crashed, wrong = ([], [])
+    crashed, wrong, other = ([], [], [])
     if corrs and not c.err:
-        crashed, wrong = probe(ctx, args)
+        crashed, wrong, other = probe(ctx, args)
+        if other:   # once more: a child that died or stalled for another reason than memory may be a loaded machine
+            crashed, wrong, other = probe(ctx, args)
         ctx.cov["alloc_probe"] = {"lines": [l for l, _ in PROBES], "crashed": [l for l, _ in crashed],
-                                  "limit": "RLIMIT_AS 2-4 GiB per child"}
+                                  "other_failures": other, "limit": "RLIMIT_AS 2-4 GiB per child"}
+        for line, why in other[:1]:
+            ctx.violation("allocation probe: the child gave no reply, but not with the recorded out-of-memory symptom: " + why,
+                          {"ops": [line], "impl": ["<%s>" % why]}, tag="probe", found_input=False)
         if crashed:
             if pid_f in known:
                 ctx.known_hits.append((pid_f, FINDINGS[pid_f]))
@@ -734,7 +997,8 @@ def run(ctx):
             ctx.violation("allocation probe: implementation and model disagree", {"ops": [line], "impl": [out], "model": [mod]},
                           tag="corr", found_input=False)
     if ctx.thorough:
-        ok, out = K.leanchecker(ctx, ["Hv.Props.C13", "Hv.Patch.OpsWf", "Hv.Patch.RoundTrip", "Hv.Patch.Untouched", "Hv.Patch.NumLemmas"])
+        ok, out = K.leanchecker(ctx, ["Hv.Props.C13", "Hv.Patch.OpsWf", "Hv.Patch.RoundTrip", "Hv.Patch.Untouched", "Hv.Patch.NumLemmas",
+                                      "Hv.Patch.SpecRefine", "Hv.Patch.Target", "Hv.Patch.LeafBytes"])
         ctx.cov["leanchecker"] = "ok" if ok else out[-500:]
         if not ok:
             ctx.violation("leanchecker rejected the compiled proofs", {"log": out[-2000:]}, tag="leanchecker", found_input=False)
@@ -743,14 +1007,14 @@ def run(ctx):
     n_ref = 0
     for op, rep in zip(c.ops, c.impl):
         f = op.split(" ")
-        if f[0] == "ap":
+        if f[0] in ("ap", "apn"):
             kinds = [x.split(":")[0] for x in f[3:]] or ["none"]
             res = rep.split(" ")[0] + ("/" + rep.split(" ")[1] if rep.startswith("err") else "")
             k = "%s%s → %s" % (kinds[0], "+%d" % (len(kinds) - 1) if len(kinds) > 1 else "", res)
             hist[k] = hist.get(k, 0) + 1
             if rep.startswith("out "):
                 n_ref += 1
-    distinct = len(set(l for l in c.ops if l.startswith(("ap ", "pf ", "parse "))))
+    distinct = len(set(l for l in c.ops if l.startswith(("ap ", "apn ", "pf ", "parse "))))
     return K.finish(
         ctx, "proof",
         rule=("inputs = generated documents (depth ≤ 4, every leaf format code, fixmap/map16/map32 + fixarray/array16/array32 + "
